@@ -199,9 +199,9 @@ class Builder:
         seen_prefix = set()
         while stack:
             prefix = stack.pop()
-            self.decisions = dict(fixed or {})
+            self.decisions = {dkey(t): v for t, v in (fixed or {}).items()}
             for t, v in prefix:
-                self.decisions[t] = v
+                self.decisions[dkey(t)] = v
             self.trace = []
             self.effects = []
             self.asserts = []
@@ -221,7 +221,7 @@ class Builder:
             forced = len(prefix)
             for i in range(len(trace) - 1, forced - 1, -1):
                 alt = trace[:i] + [(trace[i][0], not trace[i][1])]
-                key = tuple((id_key(t), v) for t, v in alt)
+                key = tuple((dkey(t), v) for t, v in alt)
                 if key not in seen_prefix:
                     seen_prefix.add(key)
                     stack.append(alt)
@@ -283,7 +283,7 @@ class Builder:
             env[s.name] = v
         elif isinstance(s, ast.If):
             test = self.ev(s.test, env, ctx)
-            if self.merge_ifs and self.fold(test) is None and test not in self.decisions and _only_assigns(s.body) and _only_assigns(s.orelse):
+            if self.merge_ifs and self.fold(test) is None and dkey(test) not in self.decisions and _only_assigns(s.body) and _only_assigns(s.orelse):
                 e1, e2 = dict(env), dict(env)
                 self.run(s.body, e1, ctx)
                 self.run(s.orelse, e2, ctx)
@@ -418,11 +418,12 @@ class Builder:
             neg = not neg
         f = self.fold(test)
         if f is None:
-            if test in self.decisions:
-                f = self.decisions[test]
+            k_ = dkey(test)
+            if k_ in self.decisions:
+                f = self.decisions[k_]
             else:
                 f = True
-                self.decisions[test] = True
+                self.decisions[k_] = True
             self.trace.append((test, f))
         return (not f) if neg else f
 
@@ -1256,6 +1257,24 @@ def _only_assigns(body) -> bool:
             continue
         return False
     return True
+
+
+def dkey(t, _depth=0):
+    """Key of a test node for the decision table: function values are identified by their definition (a closure object is
+    created afresh on every run of a path, so its identity must not take part in recognising 'the same test')."""
+    if isinstance(t, Closure):
+        return ("<closure>", id(t.node), t.qualname or t.name)
+    if isinstance(t, SelfObj):
+        return ("<selfobj>", id(t))
+    if isinstance(t, tuple):
+        if _depth > 200:
+            return ("<deep>",)
+        return tuple(dkey(x, _depth + 1) for x in t)
+    try:
+        hash(t)
+        return t
+    except TypeError:
+        return repr(t)
 
 
 def id_key(t):
